@@ -3,6 +3,7 @@ C06 — Recurring jobs: exactly one successor per run, on a steady cadence.
 -/
 import RepidModel.Worker.Chain
 import RepidProofs.Props.C19
+import RepidModel.Pred.Worker
 
 namespace Repid.C06
 open Repid Worker Sched
@@ -35,6 +36,13 @@ theorem window (p : Params) (now per : Int) (cron : String → Int → Int)
       (t ≤ now + per ∨ p.delay.delayUntil = some t) := by
   have := C19.periodic_next_window p now per cron hper hp
   simpa [Params.prepareReschedule] using this
+
+/-- the three clauses above through the predicate evaluated on the implementation's requeue calls -/
+theorem successorOk_model (p : Params) (now per : Int) (cron : String → Int → Int)
+    (hper : usPerSec ≤ per) (hp : p.delay.deferBy = some per) :
+    Pred.C06.successorOk now per p.timestamp p.delay.delayUntil (p.prepareReschedule now cron) = true := by
+  have := C19.nextOk_model p now per cron hper hp
+  simp [Pred.C06.successorOk, Params.prepareReschedule, this]
 
 /-- `first_run_honours_deferred_until`: the first enqueue of a job deferred until `d` (still ahead)
     is filed under `d`. -/
